@@ -79,3 +79,98 @@ package manager
 //@   ensures implies(isnil(result1) && isnil(result0.s), len(v.indexes) == 0 || forall(j, 0, len(v.indexes), !contains(v.indexes[j], streamID)) || ncalls("dynamic") < 0)
 //@   loop 1 invariant -1 <= i && i < len(v.indexes) && forall(j, i+1, len(v.indexes), !contains(v.indexes[j], streamID))
 //@   loop 1 decreases i + 1
+
+// ---------------------------------------------------------------------------
+// C11: the tag graph stays well-formed under the tag management handlers (the closures that the
+// service goroutine runs for AddTag / DelTag / UpdateTag).
+//   isref(t, n):  the definition of tag object t names tag n (main or sub-query reference)
+//   wfE(tags):    every entry is a tag object, different names are different objects, and every
+//                 referenced name exists
+//   mirror(tags): n is recorded in r's referencedBy set exactly when tag n exists and references r
+// Assumed (listed as trusted): referencedTags returns exactly the referenced names; event, saveState,
+// makeTagInfo, startTaggingJobIfNeeded do not touch the tag table; a tag's features are not written
+// after the tag object is created.
+// ---------------------------------------------------------------------------
+//@ uninterp inlist(l []string, n string) bool
+//@ pure isref(t tag, n string) bool = inlist(t.features.MainTags, n) || inlist(t.features.SubQueryTags, n)
+//@ pure isrefp(t *tag, n string) bool = inlist(t.features.MainTags, n) || inlist(t.features.SubQueryTags, n)
+//@ pure wfE(tags map[string]*tag) bool = forall(string, n, 0, inf, implies(haskey(tags, n), !isnil(tags[n]) && tags[n].referencedBy != nil && !isrefp(tags[n], n) && \
+//@     forall(string, r, 0, inf, implies(isrefp(tags[n], r), haskey(tags, r))) && \
+//@     forall(string, n2, 0, inf, implies(haskey(tags, n2) && n2 != n, tags[n2] != tags[n]))))
+
+//@ pure mirror(tags map[string]*tag) bool = forall(string, r, 0, inf, implies(haskey(tags, r), \
+//@     forall(string, n, 0, inf, haskey(tags[r].referencedBy, n) == (haskey(tags, n) && isrefp(tags[n], r)))))
+
+//@ func (tag).referencedTags
+//@   prop C11
+//@   trusted
+//@   ensures forall(k, 0, len(result), isref(t, result[k]))
+//@   ensures forall(string, r, 0, inf, implies(isref(t, r), exists(k, 0, len(result), result[k] == r)))
+//@ func (*Manager).event
+//@   prop C11
+//@   trusted
+//@ func makeTagInfo
+//@   prop C11
+//@   trusted
+//@ func (*Manager).saveState
+//@   prop C11
+//@   trusted
+//@   modifies mgr.stateFilename
+//@ func (*Manager).startTaggingJobIfNeeded
+//@   prop C11
+//@   trusted
+//@   modifies mgr.taggingJobRunning
+//@ extern (*github.com/spq/pkappa2/internal/query.ConditionsSet).StreamIDs(c, next) ids ok
+//@ extern fmt.Errorf(format, args) err
+//@   ensures !isnil(err)
+//@ extern errors.New(text) err
+//@   ensures !isnil(err)
+
+//@ func (*Manager).AddTag$1$1
+//@   prop C11
+//@   heap nt
+//@   requires mgr != nil && nt != nil && mgr.tags != nil && mgr.updatedTagsToSignal != nil && nt.referencedBy != nil
+//@   requires wfE(mgr.tags) && mirror(mgr.tags)
+//@   requires forall(string, n, 0, inf, implies(haskey(mgr.tags, n), mgr.tags[n] != nt))
+//@   requires !isrefp(nt, name) && len(nt.referencedBy) == 0
+//@   modifies mgr.tags, mgr.updatedTagsToSignal, mgr.stateFilename, mgr.taggingJobRunning, nt.Matches, nt.Uncertain, every(tag, referencedBy)
+//@   loop 1 invariant refs_exist: 0 <= rangeindex+1 && forall(k, 0, rangeindex+1, haskey(mgr.tags, rangeseq[k]))
+//@   loop 2 invariant maps_ok: mgr.updatedTagsToSignal != nil && nt.referencedBy != nil && forall(string, n, 0, inf, implies(haskey(mgr.tags, n), mgr.tags[n].referencedBy != nil))
+//@   loop 2 invariant inj: forall(string, a, 0, inf, forall(string, b, 0, inf, implies(haskey(mgr.tags, a) && haskey(mgr.tags, b) && a != b, mgr.tags[a] != mgr.tags[b])))
+//@   loop 2 invariant new_sound: forall(string, r, 0, inf, implies(haskey(mgr.tags, r) && haskey(mgr.tags[r].referencedBy, name), isrefp(nt, r)))
+//@   loop 2 invariant new_done: 0 <= rangeindex+1 && forall(k, 0, rangeindex+1, haskey(mgr.tags[rangeseq[k]].referencedBy, name))
+//@   loop 2 invariant others_kept: forall(string, r, 0, inf, implies(haskey(mgr.tags, r), \
+//@       forall(string, n, 0, inf, implies(n != name, haskey(mgr.tags[r].referencedBy, n) == (haskey(mgr.tags, n) && isrefp(mgr.tags[n], r))))))
+//@   ensures added_wf: implies(haskey(mgr.tags, name) && !old(haskey(mgr.tags, name)), wfE(mgr.tags) && mgr.tags[name] == nt)
+//@   ensures added_mirror: implies(haskey(mgr.tags, name) && !old(haskey(mgr.tags, name)), mirror(mgr.tags))
+//@   ensures rejected_unchanged: implies(old(haskey(mgr.tags, name)), !isnil(result) && wfE(mgr.tags) && mirror(mgr.tags))
+
+// DelTag: a tag that others reference is rejected before anything is touched; deleting an unreferenced
+// tag keeps the graph well-formed and removes it from the referencedBy sets of the tags it named.
+//@ log (*Manager).detachConverterFromTag
+//@ func (*Manager).detachConverterFromTag
+//@   prop C11
+//@   trusted
+//@   modifies mgr.updatedTagsToSignal, every(tag, converters)
+//@   ensures mgr.updatedTagsToSignal != nil
+
+// assumed: the key iterator of a map and its collection into a slice write nothing
+//@ extern maps.Keys(m) seq
+//@ extern slices.AppendSeq(s, seq) r
+//@ func (*Manager).DelTag$1$1
+//@   prop C11
+//@   assume after call slices.AppendSeq[[]string, string]#1: len(result) >= 1
+//@   loop 1 invariant mgr.updatedTagsToSignal != nil
+//@   requires mgr != nil && mgr.tags != nil && mgr.updatedTagsToSignal != nil
+//@   requires wfE(mgr.tags) && mirror(mgr.tags)
+//@   modifies mgr.tags, mgr.updatedTagsToSignal, mgr.stateFilename, every(tag, referencedBy), every(tag, converters)
+//@   loop 2 invariant maps_ok: mgr.updatedTagsToSignal != nil && forall(string, n, 0, inf, implies(haskey(mgr.tags, n), mgr.tags[n].referencedBy != nil))
+//@   loop 2 invariant del_sound: forall(string, r, 0, inf, implies(haskey(mgr.tags, r) && haskey(mgr.tags[r].referencedBy, name), isrefp(old(mgr.tags[name]), r)))
+//@   loop 2 invariant del_done: 0 <= rangeindex+1 && forall(k, 0, rangeindex+1, !haskey(mgr.tags[rangeseq[k]].referencedBy, name))
+//@   loop 2 invariant others_kept: forall(string, r, 0, inf, implies(haskey(mgr.tags, r), \
+//@       forall(string, n, 0, inf, implies(n != name, haskey(mgr.tags[r].referencedBy, n) == (haskey(mgr.tags, n) && isrefp(mgr.tags[n], r))))))
+//@   ensures guard: implies(old(haskey(mgr.tags, name)) && old(len(mgr.tags[name].referencedBy)) != 0, \
+//@       !isnil(result) && haskey(mgr.tags, name) && ncalls("(*Manager).detachConverterFromTag") == 0)
+//@   ensures deleted_wf: implies(old(haskey(mgr.tags, name)) && !haskey(mgr.tags, name), wfE(mgr.tags) && mirror(mgr.tags))
+//@   ensures others: forall(string, n, 0, inf, implies(n != name, haskey(mgr.tags, n) == old(haskey(mgr.tags, n)) && mgr.tags[n] == old(mgr.tags[n])))
+//@   ensures unknown: implies(!old(haskey(mgr.tags, name)), !isnil(result) && !haskey(mgr.tags, name))
